@@ -212,6 +212,13 @@ func (db *DB) GarbageCollect(ctx context.Context) error {
 	db.resourceCount.Add(1)
 	defer db.resourceCount.Add(-1)
 
+	// A delete captures the pointers (and so the file offsets) at both ends of its range
+	// before it resolves its offsets and only rewrites the index afterwards; if a file
+	// were compacted in between, the pointers it writes back would carry offsets into
+	// the old file. Deletes and garbage collection therefore exclude each other.
+	db.idx.deleteLock.Lock()
+	defer db.idx.deleteLock.Unlock()
+
 	if _, err := db.fc.gcWriters(); err != nil {
 		return span.Error(err)
 	}
